@@ -164,10 +164,12 @@ def _run(case, cfg, w):
     for a in case['actions']:
         if a == 'sdisc':
             w.call(srv.disconnect, sids[target_ns], namespace=target_ns,
+                   ignore_queue=bool(w.choices.chance('app', 1, 3, 'igq')),
                    _label=('disconnect', target_ns))
             ended.setdefault(target_ns, set()).add('server disconnect')
         elif a == 'sdisc_other' and other_ns:
             w.call(srv.disconnect, sids[other_ns], namespace=other_ns,
+                   ignore_queue=bool(w.choices.chance('app', 1, 3, 'igq')),
                    _label=('disconnect', other_ns))
             ended.setdefault(other_ns, set()).add('server disconnect')
         elif a == 'cdisc':
